@@ -83,9 +83,9 @@ def execute(case):
     base = case["base_shape"]
     shape = case["shape"]
     out = {"tid": case["tid"], "desc": desc, "depth": depth, "tree": case["tree"], "imposed": 1 if case.get("impose") else 0,
-           "shape": shape, "exc": "ok", "coords": [[] for _ in desc], "pays": [[] for _ in desc], "rootp": [], "fibers": []}
+           "shape": shape, "dflt": case.get("dflt", 0), "exc": "ok", "coords": [[] for _ in desc], "pays": [[] for _ in desc], "rootp": [], "fibers": []}
     try:
-        t = proj.build_tensor(case["tree"], IDS[:depth], shape=base, name="T")
+        t = proj.build_tensor(case["tree"], IDS[:depth], shape=base, name="T", default=case.get("dflt", 0))
         with contextlib.redirect_stdout(io.StringIO()):
             output, output_tensor = encode(t, desc, shape if case.get("impose") else None)
             out["rootp"] = ints(output["payloads_root"])
